@@ -27,7 +27,7 @@ mod verif_kani_tbs {
     #[kani::proof]
     #[kani::unwind(14)]
     fn text_type_adjustment_table() {
-        let x: LocalNameHash = unsafe { core::mem::transmute::<u64, LocalNameHash>(kani::any()) };
+        let x: LocalNameHash = LocalNameHash::verif_from_raw(kani::any());
         let expected = if x == h("textarea") || x == h("title") { 1 }
             else if x == h("plaintext") { 2 }
             else if x == h("script") { 3 }
@@ -36,9 +36,9 @@ mod verif_kani_tbs {
         assert!(kind(&get_text_type_adjustment(x)) == expected);
     }
     #[kani::proof]
-    #[kani::unwind(14)]
+    #[kani::unwind(46)]
     fn foreign_content_exit_list() {
-        let x: LocalNameHash = unsafe { core::mem::transmute::<u64, LocalNameHash>(kani::any()) };
+        let x: LocalNameHash = LocalNameHash::verif_from_raw(kani::any());
         let names = ["b", "big", "blockquote", "body", "br", "center", "code", "dd", "div", "dl", "dt", "em", "embed", "h1", "h2", "h3", "h4",
             "h5", "h6", "head", "hr", "i", "img", "li", "listing", "menu", "meta", "nobr", "ol", "p", "pre", "ruby", "s", "small",
             "span", "strong", "strike", "sub", "sup", "table", "tt", "u", "ul", "var"];
@@ -63,7 +63,7 @@ mod verif_kani_guard {
     #[kani::unwind(14)]
     #[kani::stub(tag_hash_to_string, verif_tag_name_stub)]
     fn ambiguity_guard_refuses_exactly() {
-        let x: LocalNameHash = unsafe { core::mem::transmute::<u64, LocalNameHash>(kani::any()) };
+        let x: LocalNameHash = LocalNameHash::verif_from_raw(kani::any());
         let s0 = any_state();
         let mut g = AmbiguityGuard { state: s0 };
         let switching = x == h("textarea") || x == h("title") || x == h("plaintext") || x == h("script") || x == h("style")
@@ -88,7 +88,7 @@ mod verif_kani_guard {
         if k0 == 3 { assert!(k1 == 3); }
         if r.is_err() { assert!((k1, d1) == (k0, d0)); }
         // end tags
-        let y: LocalNameHash = unsafe { core::mem::transmute::<u64, LocalNameHash>(kani::any()) };
+        let y: LocalNameHash = LocalNameHash::verif_from_raw(kani::any());
         let s2 = any_state();
         let mut g2 = AmbiguityGuard { state: s2 };
         g2.track_end_tag(y);
@@ -100,6 +100,8 @@ mod verif_kani_guard {
     fn verif_tag_name_stub(_tag_name: LocalNameHash) -> Box<str> { Box::from("") }
 }
 //@append src/html/local_name.rs
+#[cfg(kani)]
+impl LocalNameHash { pub(crate) fn verif_from_raw(v: u64) -> Self { Self(v) } }
 #[cfg(kani)]
 mod verif_kani_hash {
     use super::*;
